@@ -256,7 +256,7 @@ def check(P: Project, R: Report) -> None:
                 if needle in l and not (l.startswith("not ") and needle.startswith("'")):
                     tags.append(tag)
         caught = [v for k, v in st.env if k in ("e",)]
-        sig = (tuple(sorted(set(tags))), bool(caught), tuple(s.split(":")[1] for s in synth), bool(deliver), tuple(m.split(":")[1] for m in maybe), notification)
+        sig = (tuple(sorted(set(tags))), bool(caught), tuple(synth), bool(deliver), tuple(m.split(":")[1] for m in maybe), notification)
         classes.setdefault(sig, (st, node))
     R.extra["exit_classes_after_post"] = len(classes)
     n_ok = 0
@@ -304,7 +304,10 @@ def check(P: Project, R: Report) -> None:
                  f"[{label}] after POST: {acct}; an event-stream body that contains no response leaves the request without any terminal message")
         else:
             R.ob("R1", f"request accounted for at {exit_construct(node)}", False, where, f"[{label}] after the POST the routine leaves with no delivery and no synthesis; the request never completes (it times out)")
-    R.ob("R1", "synthesised messages carry the request's own id", bool(id_terms) and all(t.endswith(".get('id')") and t.startswith(("message", "message_dict")) for t in id_terms), rel, f"id terms used in synthesised messages: {sorted(id_terms)}")
+    import re as _re
+
+    own = _re.compile(r"^message(_dict[·\w]*)?\.get\('id'\)$")
+    R.ob("R1", "synthesised messages carry the request's own id", bool(id_terms) and all(own.match(t) for t in id_terms), rel, f"id terms used in synthesised messages: {sorted(id_terms)}")
     R.ob("R1", "some branch delivers the server's message", n_ok >= 1, rel, "")
     # exceptions escaping the routine altogether
     R.ob("R1", "no exception leaves the send routine", not any(t != "Cancelled" for _s, t, _n in out.exc), send.where, f"{sorted({(t, getattr(n, 'lineno', 0)) for _s, t, n in out.exc})}")
